@@ -2,6 +2,8 @@ import AutoVerif.Drv.C04
 import AutoVerif.Drv.C01
 import AutoVerif.Drv.C02
 import AutoVerif.Drv.C05
+import AutoVerif.Drv.C09
+import AutoVerif.Drv.C11
 /-
 `drv`: JSON lines in (`{"prop","case","input","impl"}`), JSON lines out
 (`{"case","agree","spec_model","spec_impl",…}`).  For each case the model's
@@ -16,6 +18,8 @@ def dispatch (prop : String) (input impl : Json) : R Reply :=
   | "C01" => C01.handle input impl
   | "C02" => C02.handle input impl
   | "C05" => C05.handle input impl
+  | "C09" => C09.handle input impl
+  | "C11" => C11.handle input impl
   | _ => throw s!"unknown property {prop}"
 
 def handleLine (line : String) : String :=
